@@ -583,35 +583,6 @@ def x1(prog):
     return inst, findings
 
 
-def x2(prog):
-    """?OP_x on a location list element scans all operations"""
-    inst, findings = [], []
-    fs = [f for f in prog.funcs.values() if "pred_op_loclist_elem" in f["q"] and f["n"] == "result"]
-    if len(fs) != 1:
-        raise Broken("anchor pred_op_loclist_elem::result vanished")
-    f = fs[0]
-    loops = [x for x in walk(f["body"]) if x.get("k") == "for"]
-    ok = False
-    narrowed = None
-    for lp in loops:
-        c = unwrap(lp.get("c"))
-        init0 = any(isinstance(v.get("init"), dict) and intval(v["init"]) == 0 for y in walk(lp.get("init")) if y.get("k") == "decl" for v in y["vars"])
-        plain = isinstance(c, dict) and c.get("op") == "<" and any(y.get("fn") == "get_exprlen" for y in walk(c) if y.get("k") == "call")
-        mentions = isinstance(c, dict) and any(y.get("fn") == "get_exprlen" for y in walk(c) if y.get("k") == "call")
-        cmp_atom = any(y.get("k") == "mem" and y["n"] == "atom" for y in walk(lp["body"]))
-        step1 = isinstance(unwrap(lp.get("inc")), dict) and unwrap(lp["inc"]).get("op") == "++"
-        if init0 and plain and cmp_atom and step1:
-            ok = True
-        elif cmp_atom and (not init0 or not step1 or (mentions and not plain)):
-            narrowed = short(c)
-    if not ok and narrowed is None:
-        raise Broken("pred_op_loclist_elem::result no longer scans with a recognisable for loop (unmodelled shape)")
-    inst.append(("X2:pred_op_loclist_elem", {"scans_all_ops": ok}))
-    if not ok:
-        findings.append({"key": "X2:pred_op_loclist_elem", "where": f["l"], "msg": "?OP_x on a location-list element does not scan every operation [0, exprlen): loop condition `%s`" % narrowed, "detail": None})
-    return inst, findings
-
-
 def u1(prog):
     """erase-remove idiom: the iterator returned by std::remove/remove_if/unique is erased up to end()"""
     inst, findings = [], []
